@@ -985,7 +985,14 @@ fn c06_oracle(sc: &Scenario, ex: &Execution, info: &mut CaseInfo) -> Vec<Finding
     let (sp, judged) = orc::spurious_while_quiet(&h);
     info.count("refusals_outside_any_overlap_judged_against_the_model", judged);
     f.extend(sp);
+    // every receiver has left by the time of the probe: the model answers Disconnected to every send
+    f.extend(orc::no_receivers(&h));
     f
+}
+
+/// a sequential history is quiescent between any two calls: every return value equals the model's
+fn c06_seq_oracle(sc: &Scenario, ex: &Execution, info: &mut CaseInfo) -> Vec<Finding> {
+    c09_oracle(sc, ex, info)
 }
 
 // ---- C10 -----------------------------------------------------------------------------------
@@ -1515,8 +1522,15 @@ pub fn registry() -> Vec<PropDef> {
                     source: Source::Systematic { strategy: quiescence_strategy, cases: cases_fn!(20, 12) },
                     oracle: c06_oracle,
                 },
+                // the degenerate case of the statement: with a single thread the queue is quiescent
+                // between any two calls (the random histories of C09, churn bursts included)
+                Part {
+                    name: "sequential_histories",
+                    source: Source::Random { strategy: c09_random, cases: cases_fn!(3000, 50000) },
+                    oracle: c06_seq_oracle,
+                },
             ],
-            rule: "threads perform a bounded number of non-blocking sends/receives/clones/conversions and stop without draining; after joining them the controller probes single-threaded: fill to Full, drain every stream, refill (exactly N must be accepted), drain again; compared with the model computed from the recorded history; non-trivial = the probe ran AND calls overlapped AND the ring wrapped",
+            rule: "threads perform a bounded number of non-blocking sends/receives/clones/conversions and stop without draining (or leave for good); after joining them the controller probes single-threaded: fill to Full, drain every stream, refill (exactly N must be accepted), drain again - or, when every receiver has left, sends that must all be refused as Disconnected; compared with the model computed from the recorded history; plus sequential histories compared with the model call by call; non-trivial = the probe ran AND calls overlapped AND the ring wrapped",
             assumptions: vec![SC_ASSUME, SAMPLE_ASSUME, MODEL_ASSUME],
         },
         PropDef {
